@@ -61,6 +61,7 @@ type Unit struct {
 	bodyPos   token.Pos
 	loopsSeen map[int]bool
 	funcLits  []*ast.FuncLit
+	rangeVars map[int]*types.Var
 }
 
 type deferred struct {
@@ -259,10 +260,18 @@ func (u *Unit) newRef(st *State) string {
 }
 
 // slice helpers
-func sRef(s string) string { return "(s.ref " + s + ")" }
-func sOff(s string) string { return "(s.off " + s + ")" }
-func sLen(s string) string { return "(s.len " + s + ")" }
-func sCap(s string) string { return "(s.cap " + s + ")" }
+func sPart(s string, i int, acc string) string {
+	if strings.HasPrefix(s, "(mk_slice ") {
+		if parts := splitSexp(s[1 : len(s)-1]); len(parts) == 5 {
+			return parts[i]
+		}
+	}
+	return "(" + acc + " " + s + ")"
+}
+func sRef(s string) string { return sPart(s, 1, "s.ref") }
+func sOff(s string) string { return sPart(s, 2, "s.off") }
+func sLen(s string) string { return sPart(s, 3, "s.len") }
+func sCap(s string) string { return sPart(s, 4, "s.cap") }
 
 func (u *Unit) sliceBlock(st *State, sl Term) string {
 	elem := sl.T.Underlying().(*types.Slice).Elem()
@@ -1115,6 +1124,7 @@ func (u *Unit) binop(st *State, op token.Token, a, b Term, rt types.Type, at ast
 		case token.QUO, token.REM:
 			if st != nil && !spec {
 				u.emit(st, "safety", u.safetyName("div", u.exprText(at)), "division by zero", at.Pos(), not(eq(b.S, c.constInt(big.NewInt(0), bits, signed))))
+				st.assume(not(eq(b.S, c.constInt(big.NewInt(0), bits, signed))))
 			}
 			o := map[bool]map[token.Token]string{false: {token.QUO: "bvudiv", token.REM: "bvurem"}, true: {token.QUO: "bvsdiv", token.REM: "bvsrem"}}[signed][op]
 			res.S = fmt.Sprintf("(%s %s %s)", o, a.S, b.S)
@@ -1158,7 +1168,7 @@ func (u *Unit) binop(st *State, op token.Token, a, b Term, rt types.Type, at ast
 			st.assume(not(eq(b.S, "0")))
 		}
 		var q string
-		if !signed {
+		if !signed || mathInt {
 			q = fmt.Sprintf("(div %s %s)", a.S, b.S)
 		} else {
 			q = fmt.Sprintf("(ite (>= %s 0) (ite (> %s 0) (div %s %s) (- (div %s (- %s)))) (ite (> %s 0) (- (div (- %s) %s)) (div (- %s) (- %s))))",
@@ -1167,7 +1177,7 @@ func (u *Unit) binop(st *State, op token.Token, a, b Term, rt types.Type, at ast
 		if op == token.QUO {
 			res.S = wrap(q)
 		} else {
-			if !signed {
+			if !signed || mathInt {
 				res.S = fmt.Sprintf("(mod %s %s)", a.S, b.S)
 			} else {
 				res.S = fmt.Sprintf("(- %s (* %s %s))", a.S, b.S, q)
